@@ -1,7 +1,7 @@
 (* Props/C07.v — C07: the CSS lexer follows the CSS Syntax token grammar; IsIdent / IsURLUnquoted agree
    with it.  Also holds the CSS-lexer instances of C01 (no crash / hang / over-read) and C02 (tokens are
    faithful slices).  Statements only; each is closed by [exact] of a lemma proved under Css/. *)
-From Verif Require Import Common.Base Common.Lx Css.Model Css.Proofs Css.Agree.
+From Verif Require Import Common.Base Common.Lx Css.Model Css.Proofs Css.Agree Css.Relex.
 
 (* C01: from every state reachable between two calls, Next returns (no panic: no read outside the
    buffer data ++ [0]) and re-establishes the invariant. *)
@@ -56,7 +56,7 @@ Theorem isident_agrees : forall b,
   (b <> [] ->
    (is_ident b = Some true <->
     exists ty, css_lex b = LexDone [(ty, b)] /\ (ty = TIdent \/ ty = TCustomPropertyName))).
-Proof. intros b. split; [apply is_ident_total|apply isident_agrees_proof]. Qed.
+Proof. exact isident_agrees_full. Qed.
 Print Assumptions isident_agrees.
 
 (* C07: IsURLUnquoted never panics, and it is true only if "url(" ++ b ++ ")" lexes as one URL token
@@ -65,5 +65,12 @@ Theorem isurl_sound : forall b,
   (exists r, is_url_unquoted b = Some r) /\
   (is_url_unquoted b = Some true ->
    css_lex (url_open ++ b ++ [41]) = LexDone [(TURL, url_open ++ b ++ [41])]).
-Proof. intros b. split; [apply is_url_unquoted_total|apply isurl_sound_proof]. Qed.
+Proof. exact isurl_sound_full. Qed.
 Print Assumptions isurl_sound.
+
+(* C02: lexing the text of any single token of any input on its own yields that same token again (the lexer
+   is stateless and no decision depends on bytes past the token end except to stop). *)
+Theorem css_relex_idempotent : forall d toks ty b, css_lex d = LexDone toks -> In (ty, b) toks ->
+  css_lex b = LexDone [(ty, b)].
+Proof. exact css_relex_proof. Qed.
+Print Assumptions css_relex_idempotent.
